@@ -3,12 +3,20 @@
 set -e
 cd "$(dirname "$0")"
 mkdir -p _work evidence ocaml/gen
-python3 tools/gen_rtl.py --if-possible || true
-(cd coq && coq_makefile -f _CoqProject -o Makefile && timeout 3000 make -j16)
 python3 - <<'PY'
-import sys
+import sys, os
 sys.path.insert(0, 'tools')
 import vlib
+try:
+    import gen_rtl
+    gen_rtl.generate_all()          # regenerate coq/gen/*.v from /repo's Verilog (data for the RTL theorems)
+except ImportError:
+    pass
+ok, log = vlib.coq_make([], timeout=3000)   # full .vo build of everything in coq/_CoqProject
+print(log[-3000:])
+if not ok:
+    print('setup: Coq build failed')
+    sys.exit(1)
 exe, log = vlib.ocaml_build()
 if exe is None:
     print(log)
